@@ -26,14 +26,20 @@ structure Codec (α : Type) where
   eps : α
   /-- `F::cast(1e-4)`, the default tolerance -/
   tol0 : α
+  /-- is the multi-task gap value compared?  (not in f32: the gap is a difference of large terms, its
+  relative error in single precision is unbounded; `W`, `b`, the sweep count and `predict` are compared) -/
+  cmpGap : Bool
+  /-- with `l1 = 0`: relative size of `‖XᵀR − l2·W‖` under which a returned point counts as stationary -/
+  tieThr : Float
 
 def c64 : Codec Float :=
   { parse := parseF64, shw := showF64c, wide := id, ofNat := Float.ofNat,
-    eps := Float.ofBits 0x3CB0000000000000, tol0 := 1e-4 }
+    eps := Float.ofBits 0x3CB0000000000000, tol0 := 1e-4, cmpGap := true, tieThr := 1e-9 }
 
 def c32 : Codec Float32 :=
   { parse := parseF32, shw := fun x => if x != x then "nan" else showF32 x, wide := Float32.toFloat,
-    ofNat := Float32.ofNat, eps := Float32.ofBits 0x34000000, tol0 := (1e-4 : Float).toFloat32 }
+    ofNat := Float32.ofNat, eps := Float32.ofBits 0x34000000, tol0 := (1e-4 : Float).toFloat32,
+    cmpGap := false, tieThr := 1e-4 }
 
 section
 variable {α : Type} [Add α] [Sub α] [Mul α] [Div α] [Neg α] [LT α] [DecidableLT α]
@@ -168,8 +174,10 @@ def handleBcd (cd : Codec α) (toks : List String) : Option String := do
 /-! ### the sweep count of a tolerance-compared descent hangs on float comparisons
 
 `bcdSafe` replays the model's `bcdLoop` (same sweep, same tests) and says whether every test that
-decides the control flow — `w_max ≈ 0`, `d_w_max / w_max < tol`, `gap < tol·‖Y‖²`, and with `l1 = 0`
-the `dual_norm > l1` branch of the gap — was taken with a relative margin of at least `1e-6`.
+decides the control flow — `w_max ≈ 0`, `d_w_max / w_max < tol`, `gap < tol·‖Y‖²` — was taken with a
+relative margin of at least `1e-6`.  (With `l1 = 0` the gap itself jumps at `XᵀR − l2·W = 0` exactly; a
+converged ridge fit sits at rounding distance from that point, so no margin can be asked there: those
+lines rely on gemm producing the same bits on lattice-sized problems, as the exact ops do for `dot`.)
 Only then are `steps` and the values compared (`margin=~1`); otherwise the line says `margin=~0` and
 the comparison skips it (counted as `tie_skipped`). -/
 
@@ -190,15 +198,9 @@ def bcdSafe (cd : Codec α) (contig : Bool) (t : Nat) (thr denAdd : α) (C : Lis
     let safeAB := forced || (safeA && safeB)
     if forced || a || b then
       let g := dualityGapMtl t C Y st.w st.r l1r pen n
-      let l1 := l1r * pen * n
-      let l2 := (1 - l1r) * pen * n
-      let dn := cd.wide (dualNormMtl t C st.w st.r l2)
-      let rn := cd.wide (sumS (st.r.flatten.map fun x => x * x))
-      let xn := cd.wide (normMax norms)
-      let safeD := !(l1 == 0) || dn > 1e-9 * Float.sqrt rn * Float.sqrt xn
       let safeC := relDist (cd.wide g) (cd.wide tolS) > 1e-6
-      if g < tolS then safeAB && safeC && safeD
-      else safeAB && safeC && safeD &&
+      if g < tolS then safeAB && safeC
+      else safeAB && safeC &&
         bcdSafe cd contig t thr denAdd C norms Y n tol tolS l1r pen maxSteps fuel steps' st.w st.r
     else safeAB && bcdSafe cd contig t thr denAdd C norms Y n tol tolS l1r pen maxSteps fuel steps' st.w st.r
 
@@ -208,6 +210,31 @@ def bcdSafeTop (cd : Codec α) (contig : Bool) (t : Nat) (C : List (List α)) (Y
   bcdSafe cd contig t (n * l1r * pen) (n * (1 - l1r) * pen) C norms Y n tol
     (tol * sumS (Y.flatten.map fun x => x * x)) l1r pen maxSteps maxSteps 0
     (List.replicate C.length (List.replicate t 0)) Y
+
+/-- With `l1 = 0` the gap formula jumps at `XᵀR − l2·W = 0` exactly (scaling constant 1 instead of 0): a
+ridge / unpenalised descent that has converged sits at rounding distance from that point, and whether it
+hits it exactly (and then breaks) hangs on the last bits of gemm.  `tieLevel` is `‖XᵀR − l2·W‖ / (‖R‖·max‖x_j‖)`
+recomputed at the returned point; at or under `tieThr` (harness: same criterion from first principles) the
+gap and the sweep count are not compared (`-`), `W`, `b`, `predict` still are; within a factor 100 of
+the threshold the line is skipped. -/
+def tieLevel (cd : Codec α) (t : Nat) (C Yc W : List (List α)) (l1r pen n : α) : Float :=
+  let l2 := (1 - l1r) * pen * n
+  let Rc := List.zipWith (fun yk wk => residual C yk wk 0) (colsOf t Yc) (colsOf t W)
+  let R := colsOf Yc.length Rc
+  let dn := cd.wide (dualNormMtl t C W R l2)
+  let rn := cd.wide (sumS (R.flatten.map fun x => x * x))
+  let xn := cd.wide (normMax (C.map fun c => dotS c c))
+  dn / (Float.sqrt rn * Float.sqrt xn + 1e-300)
+
+/-- `(gap token, steps token, safe)` -/
+def gapSteps (cd : Codec α) (t : Nat) (C Yc W : List (List α)) (l1r pen n g : α) (s : Nat) (safe : Bool) :
+    String × String × Bool :=
+  if l1r * pen * n == 0 then
+    let lv := tieLevel cd t C Yc W l1r pen n
+    if lv ≤ cd.tieThr / 100 then ("-", "-", true)
+    else if lv < cd.tieThr * 100 then ("-", "-", false)
+    else (if cd.cmpGap then shT cd g else "-", toString s, safe)
+  else (if cd.cmpGap then shT cd g else "-", toString s, safe)
 
 def marginTok (safe : Bool) : String := if safe then "margin=~3ff0000000000000" else "margin=~0000000000000000"
 
@@ -221,7 +248,8 @@ def handleBcdT (cd : Codec α) (toks : List String) : Option String := do
   if t = 0 ∨ !rect Y n t then none else
   let (w, g, s) := blockCoordinateDescent contig t cd.eps C Y (cd.ofNat n) tol mx l1r pen
   let safe := bcdSafeTop cd contig t C Y (cd.ofNat n) tol mx l1r pen
-  some s!"ok w={showList2 (shT cd) w} gap={shT cd g} steps={s} {marginTok safe}"
+  let (gs, ss, safe) := gapSteps cd t C Y w l1r pen (cd.ofNat n) g s safe
+  some s!"ok w={showList2 (shT cd) w} gap={gs} steps={ss} {marginTok safe}"
 
 /-- `fitm`: `MultiTaskElasticNet::{params,ridge,lasso}()` + optional setters + `fit` (+ `predict`) -/
 def handleFitM (cd : Codec α) (toks : List String) : Option String := do
@@ -242,7 +270,8 @@ def handleFitM (cd : Codec α) (toks : List String) : Option String := do
     let pr := match P with
       | some rows => s!" pred={showList2 (shT cd) (predictMtl t rows w b)}"
       | none => ""
-    some s!"ok b={showList (sh cd) b} w={showList2 (shT cd) w} gap={shT cd g} steps={s}{pr} {marginTok safe}"
+    let (gs, ss, safe) := gapSteps cd t C Yc w prm.l1Ratio prm.penalty (cd.ofNat n) g s safe
+    some s!"ok b={showList (sh cd) b} w={showList2 (shT cd) w} gap={gs} steps={ss}{pr} {marginTok safe}"
 
 /-- `objm`: the documented multi-task objective (times `n`) -/
 def handleObjM (cd : Codec α) (toks : List String) : Option String := do
